@@ -35,19 +35,20 @@ import (
 )
 
 type config struct {
-	Mode      string `json:"mode"`
-	Format    string `json:"format"`
-	Minify    string `json:"minify"`
-	Banner    bool   `json:"banner"`
-	Root      bool   `json:"root"`
-	Content   bool   `json:"content"`
-	Sm        string `json:"sm"`
-	Names     string `json:"names"`
-	Compose   bool   `json:"compose"`
-	Kind      string `json:"kind"`
-	CanShift  bool   `json:"canShift"`
-	Rebasable bool   `json:"rebasable"`
-	OneLine   bool   `json:"oneLine"`
+	Mode        string `json:"mode"`
+	Format      string `json:"format"`
+	Minify      string `json:"minify"`
+	Banner      bool   `json:"banner"`
+	Root        bool   `json:"root"`
+	Content     bool   `json:"content"`
+	Sm          string `json:"sm"`
+	Names       string `json:"names"`
+	Compose     bool   `json:"compose"`
+	Kind        string `json:"kind"`
+	CanShift    bool   `json:"canShift"`
+	Rebasable   bool   `json:"rebasable"`
+	OneLine     bool   `json:"oneLine"`
+	RebasableIn bool   `json:"rebasableIn"`
 }
 
 type layoutTuple struct {
@@ -56,12 +57,16 @@ type layoutTuple struct {
 }
 
 type scenario struct {
-	ID      int      `json:"id"`
-	Cfg     config   `json:"config"`
-	Layouts []string `json:"layouts"`
-	UTF8    bool     `json:"utf8"`              // charset=utf8: non-ASCII characters stay raw in the generated code
-	Special string   `json:"special,omitempty"` // replayed model counterexample
-	BannerX string   `json:"bannerText,omitempty"`
+	ID      int       `json:"id"`
+	Cfg     config    `json:"config"`
+	Layouts []string  `json:"layouts"`
+	UTF8    bool      `json:"utf8"`              // charset=utf8: non-ASCII characters stay raw in the generated code
+	Special string    `json:"special,omitempty"` // replayed model counterexample
+	BannerX string    `json:"bannerText,omitempty"`
+	Pattern []string  `json:"pattern,omitempty"` // input-map family: "P"/"I" per file in output order (deps, entry)
+	InMaps  []inMap   `json:"inmaps,omitempty"`  // one descriptor per position (zero value for "P")
+	Family  string    `json:"family,omitempty"`  // "", "inmap", "css", "ts"
+	Extra   *extraCfg `json:"extra,omitempty"`   // css / ts families
 }
 
 func (s scenario) name() string {
@@ -70,15 +75,35 @@ func (s scenario) name() string {
 	if s.UTF8 {
 		u = "/utf8"
 	}
-	return fmt.Sprintf("%s/%s/min-%s/b%v/r%v/c%v/%s/%s/x%v/%s%s%s", c.Mode, c.Format, c.Minify, c.Banner, c.Root, c.Content, c.Sm, c.Names, c.Compose, strings.Join(s.Layouts, "+"), u, s.Special)
+	if s.Extra != nil {
+		return s.Extra.name() + "/" + strings.Join(s.Layouts, "+")
+	}
+	x := ""
+	if len(s.Pattern) > 0 {
+		x = "/" + strings.Join(s.Pattern, "") + "/" + inmapCodes(s.InMaps)
+	}
+	if s.Family != "" && s.Family != "inmap" {
+		x += "/" + s.Family
+	}
+	return fmt.Sprintf("%s/%s/min-%s/b%v/r%v/c%v/%s/%s/x%v/%s%s%s%s", c.Mode, c.Format, c.Minify, c.Banner, c.Root, c.Content, c.Sm, c.Names, c.Compose, strings.Join(s.Layouts, "+"), u, s.Special, x)
 }
 
 func (s scenario) key(kind string) map[string]interface{} {
+	if s.Extra != nil {
+		return map[string]interface{}{"kind": kind, "family": s.Family, "extra": s.Extra.name(), "layouts": strings.Join(s.Layouts, "+")}
+	}
 	c := s.Cfg
 	k := map[string]interface{}{"kind": kind, "mode": c.Mode, "format": c.Format, "minify": c.Minify, "banner": c.Banner, "root": c.Root,
 		"content": c.Content, "sm": c.Sm, "names": c.Names, "compose": c.Compose, "layouts": strings.Join(s.Layouts, "+"), "utf8": s.UTF8}
 	if s.Special != "" {
 		k["special"] = s.Special
+	}
+	if len(s.Pattern) > 0 {
+		k["pattern"] = strings.Join(s.Pattern, "")
+		k["inmaps"] = inmapCodes(s.InMaps)
+	}
+	if s.Family != "" {
+		k["family"] = s.Family
 	}
 	return k
 }
@@ -94,6 +119,9 @@ type job struct {
 	Aliases map[string]string      `json:"aliases,omitempty"`
 	Bundle  *codeMap               `json:"bundle,omitempty"`
 	Alone   []aloneBuild           `json:"alone,omitempty"`
+	Inter   []interInfo            `json:"inter,omitempty"`
+	Groups  []sourceGroup          `json:"groups,omitempty"`
+	Renamed []string               `json:"renamed,omitempty"`
 	scen    *scenario
 	out     string
 }
@@ -104,9 +132,10 @@ type codeMap struct {
 }
 
 type aloneBuild struct {
-	Source string `json:"source"`
-	Code   string `json:"code"`
-	Map    string `json:"map"`
+	Source  string   `json:"source"`
+	Sources []string `json:"sources"` // the file's own sources in order (one entry without an input map)
+	Code    string   `json:"code"`
+	Map     string   `json:"map"`
 }
 
 type jobError struct {
@@ -207,6 +236,9 @@ type problem struct {
 
 // materialise + build one scenario
 func runScenario(r *core.Run, sc *scenario) *built {
+	if sc.Extra != nil {
+		return runExtraScenario(r, sc)
+	}
 	c := sc.Cfg
 	res := &built{}
 	root := filepath.Join(r.Scratch, fmt.Sprintf("s%d", sc.ID))
@@ -215,11 +247,22 @@ func runScenario(r *core.Run, sc *scenario) *built {
 	defer os.RemoveAll(root)
 	m := &markers{}
 	var files []genFile
+	var inm *inmapFiles
 	lay := func(i int) string { return sc.Layouts[i%len(sc.Layouts)] }
 	switch c.Mode {
 	case "transform":
 		files = append(files, makeFile(m, fileSpec{name: "f0.js", layout: lay(0)}))
 	case "bundle":
+		if len(sc.Pattern) > 0 {
+			inm = materialiseInmap(r, sc, root, src, m)
+			res.nBuilds += inm.nBuilds
+			if inm.infra != "" {
+				res.infra = inm.infra
+				return res
+			}
+			files = inm.files
+			break
+		}
 		n := len(sc.Layouts)
 		var deps []genFile
 		for i := 1; i < n; i++ {
@@ -254,7 +297,19 @@ func runScenario(r *core.Run, sc *scenario) *built {
 	origText := map[string]string{}
 	disk := map[string]string{}
 	composeIdx := -1
-	if c.Compose {
+	if inm != nil {
+		for k, v := range inm.aliases {
+			aliases[k] = v
+		}
+		for k, v := range inm.disk {
+			disk[k] = v
+		}
+		for k, v := range inm.origText {
+			origText[k] = v
+		}
+		files = nil // nothing else to materialise
+	}
+	if c.Compose && inm == nil {
 		composeIdx = len(files) - 1
 		if c.Mode == "split" {
 			composeIdx = 2 // shared.js
@@ -290,6 +345,14 @@ func runScenario(r *core.Run, sc *scenario) *built {
 		}
 	}
 	res.replay = map[string]interface{}{"scenario": sc, "files": disk, "firstPass": firstPass}
+	groupOf := map[string][]string{} // stage-2 file name -> its sources in the final map
+	if inm != nil {
+		files = inm.files
+		res.replay["firstPass"] = inm.firstPass
+		for _, g := range inm.groups {
+			groupOf[g.File] = g.Sources
+		}
+	}
 	minWS, minID, minSyn, banner, footer, sroot, scontent, smode := applyCommon(c, sc.BannerX)
 	charset := api.CharsetDefault
 	if sc.UTF8 {
@@ -301,6 +364,10 @@ func runScenario(r *core.Run, sc *scenario) *built {
 			e["sourceRoot"] = sourceRoot
 		} else {
 			e["sourceRoot"] = nil
+		}
+		if inm != nil {
+			e["groups"] = inm.groups
+			e["nullContent"] = inm.nullOK
 		}
 		return e
 	}
@@ -318,6 +385,10 @@ func runScenario(r *core.Run, sc *scenario) *built {
 	}
 	addJob := func(out, code, mp string, fl map[string]string) {
 		j := &job{ID: fmt.Sprintf("%d:%s", sc.ID, out), Code: code, Map: mp, Files: fl, Expect: expect(), Aliases: aliases, scen: sc, out: out}
+		if inm != nil {
+			j.Inter = inm.inters
+			j.Renamed = inm.renamed
+		}
 		res.jobs = append(res.jobs, j)
 	}
 	canon := func(mp string) string {
@@ -506,8 +577,15 @@ func runScenario(r *core.Run, sc *scenario) *built {
 		}
 	}
 	// re-basing relation: every non-entry file is also bundled alone with the same options
-	if c.Rebasable && len(files) > 1 && len(jsFiles) == 1 {
+	if (c.Rebasable || (inm != nil && c.RebasableIn)) && len(files) > 1 && len(jsFiles) == 1 {
 		rj := &job{ID: fmt.Sprintf("%d:rebase", sc.ID), Kind: "rebase", Bundle: &codeMap{Code: mainCode, Map: mainMap}, scen: sc, out: "rebase"}
+		if inm != nil {
+			rj.Groups = inm.groups
+		} else {
+			for _, f := range files {
+				rj.Groups = append(rj.Groups, sourceGroup{File: f.spec.name, Sources: []string{"../src/" + f.spec.name}})
+			}
+		}
 		for _, f := range files[1:] {
 			ar := build(api.SourceMapExternal, []string{"src/" + f.spec.name})
 			if len(ar.Errors) > 0 {
@@ -522,7 +600,11 @@ func runScenario(r *core.Run, sc *scenario) *built {
 				}
 			}
 			if ac != "" && am != "" {
-				rj.Alone = append(rj.Alone, aloneBuild{Source: "../src/" + f.spec.name, Code: ac, Map: am})
+				ab := aloneBuild{Source: "../src/" + f.spec.name, Sources: []string{"../src/" + f.spec.name}, Code: ac, Map: am}
+				if g, ok := groupOf[f.spec.name]; ok {
+					ab.Sources = g
+				}
+				rj.Alone = append(rj.Alone, ab)
 			}
 		}
 		if len(rj.Alone) > 0 {
@@ -533,11 +615,12 @@ func runScenario(r *core.Run, sc *scenario) *built {
 }
 
 type recVerdict struct {
-	I    int  `json:"i"`
-	OK   bool `json:"ok"`
-	Want int  `json:"want"`
-	Got  int  `json:"got"`
-	Diff int  `json:"diff"`
+	I     int  `json:"i"`
+	OK    bool `json:"ok"`
+	Want  int  `json:"want"`
+	Got   int  `json:"got"`
+	Diff  int  `json:"diff"`
+	SrcOK bool `json:"srcok"`
 }
 
 // validateRecords lets TLC run the spec's Join (LinkAll of SourceMap.tla) on the
@@ -577,7 +660,11 @@ func validateRecords(r *core.Run, recs []json.RawMessage, scens []*scenario) {
 			continue
 		}
 		sc := scens[v.I-1]
-		r.Violation(sc.key("join-spec"), fmt.Sprintf("the delta stream of the real bundle map differs from Join/LinkAll of SourceMap.tla applied to the recorded chunks (scenario %s; first difference at item %d; %d items expected, %d real)", sc.name(), v.Diff, v.Want, v.Got),
+		what := ""
+		if !v.SrcOK {
+			what = "; the real sources array / the files' source index bases differ from SourcesPass of SourceMap.tla on the real per-file source counts"
+		}
+		r.Violation(sc.key("join-spec"), fmt.Sprintf("the delta stream of the real bundle map differs from Join/LinkAll of SourceMap.tla applied to the recorded chunks (scenario %s; first difference at item %d; %d items expected, %d real%s)", sc.name(), v.Diff, v.Want, v.Got, what),
 			map[string]interface{}{"scenario": sc, "record": recs[v.I-1]})
 	}
 }
@@ -590,18 +677,19 @@ func Run(r *core.Run) {
 
 	// ---- design: TLC on the model -------------------------------------------
 	var wg sync.WaitGroup
-	designs := []string{"SourceMap.link.quick.cfg", "SourceMap.text.quick.cfg", "SourceMap.shift.cfg"}
+	designs := []string{"SourceMap.link.src.quick.cfg", "SourceMap.link.quick.cfg", "SourceMap.text.quick.cfg", "SourceMap.shift.cfg", "SourceMap.find.cfg"}
 	if r.Thorough() {
 		designs = []string{"SourceMap.link.c2m2.cfg", "SourceMap.link.c3m1.cfg", "SourceMap.link.c3m3l0.cfg",
-			"SourceMap.text.cfg", "SourceMap.shift.m3.cfg"}
+			"SourceMap.link.src.c3m1.cfg", "SourceMap.link.src.c2m2.cfg",
+			"SourceMap.text.cfg", "SourceMap.shift.m3.cfg", "SourceMap.find.cfg"}
 	}
-	if r.Replay != "" {
+	if r.Replay != "" || os.Getenv("C07_NODESIGN") != "" { // (the second: development aid, not used by the registered commands)
 		designs = nil
 	}
 	wg.Add(1)
 	go func() {
 		defer wg.Done()
-		core.Parallel(len(designs), 3, func(i int) {
+		core.Parallel(len(designs), 4, func(i int) {
 			tlcrun.MustHold(r, tlcrun.Options{Module: "SourceMap", Config: designs[i], Workers: 2, TimeoutSec: 3000, XssMB: 64})
 		})
 	}()
@@ -623,9 +711,31 @@ func Run(r *core.Run) {
 		}
 	}()
 
+	// second model-level counterexample: composition through an input map with 1-field
+	// segments (the parser drops them); replayed by the "holes" input maps
+	replayHoles := false
+	if r.Replay == "" {
+		wg.Add(1)
+		go func() {
+			defer wg.Done()
+			f1, ferr := tlcrun.Run(r, tlcrun.Options{Module: "SourceMap", Config: "SourceMap.find1.cfg", Workers: 1, TimeoutSec: 1200})
+			if ferr != nil {
+				r.Infra("find1 config: %v", ferr)
+			} else if f1.Violated == "ComposeHonoursUnmapped" {
+				replayHoles = true
+				r.Logf("TLC SourceMap/SourceMap.find1.cfg: counterexample to ComposeHonoursUnmapped found on the model (text after a 1-field segment inherits the previous segment); replayed by the input maps with holes")
+			} else {
+				r.Infra("find1 config: the expected model-level counterexample was not found")
+			}
+		}()
+	}
+
 	// ---- scenarios -------------------------------------------------------------
 	var configs []config
 	var layouts [][]string
+	var inmaps []inMap
+	var patterns [][]string
+	var extras []extraCfg
 	gres := tlcrun.MustHold(r, tlcrun.Options{Module: "SourceMapGen", Config: "SourceMapGen.cfg", Workers: 1, TimeoutSec: 1200, OnCase: func(raw []byte) {
 		var probe struct {
 			Kind string `json:"kind"`
@@ -643,15 +753,35 @@ func Run(r *core.Run) {
 			if json.Unmarshal(raw, &l) == nil {
 				layouts = append(layouts, l.Files)
 			}
+		} else if probe.Kind == "inmap" {
+			var d inMap
+			if json.Unmarshal(raw, &d) == nil {
+				inmaps = append(inmaps, d)
+			}
+		} else if probe.Kind == "css" || probe.Kind == "ts" {
+			var e extraCfg
+			if json.Unmarshal(raw, &e) == nil {
+				extras = append(extras, e)
+			}
+		} else if probe.Kind == "pattern" {
+			var l layoutTuple
+			if json.Unmarshal(raw, &l) == nil {
+				patterns = append(patterns, l.Files)
+			}
 		}
 	}})
-	if gres == nil || len(configs) == 0 || len(layouts) == 0 {
+	if gres == nil || len(configs) == 0 || len(layouts) == 0 || len(inmaps) == 0 || len(patterns) == 0 {
 		r.Infra("no scenarios exported by SourceMapGen")
 		wg.Wait()
 		return
 	}
 	r.Set("configs_enumerated", len(configs))
 	r.Set("layout_tuples_enumerated", len(layouts))
+	r.Set("inmap_descriptors_enumerated", len(inmaps))
+	r.Set("inmap_patterns_enumerated", len(patterns))
+	// TLC prints sets in its own order; make the seeded draws independent of it
+	sort.Slice(inmaps, func(i, j int) bool { return inmaps[i].code() < inmaps[j].code() })
+	sort.Slice(patterns, func(i, j int) bool { return strings.Join(patterns[i], "") < strings.Join(patterns[j], "") })
 	// pairing: every configuration is built with perLayout layout tuples drawn by the
 	// seed; transform configurations only take single-file tuples
 	var single, multi [][]string
@@ -674,10 +804,39 @@ func Run(r *core.Run) {
 		}
 		scens = append(scens, sc)
 	}
+	// input-map family: a bundle configuration with compose = TRUE is paired with a
+	// position pattern and one descriptor per marked position; patterns and
+	// descriptors are dealt from seeded permutations, so that one run meets every
+	// pattern and spreads over the descriptors
+	var patPerm, inPerm []int
+	patNext, inNext := 0, 0
+	addInmapScen := func(c config) {
+		if patPerm == nil {
+			patPerm, inPerm = r.Rand.Perm(len(patterns)), r.Rand.Perm(len(inmaps))
+		}
+		pat := patterns[patPerm[patNext%len(patPerm)]]
+		patNext++
+		ds := make([]inMap, len(pat))
+		for k, x := range pat {
+			if x == "I" {
+				ds[k] = inmaps[inPerm[inNext%len(inPerm)]]
+				inNext++
+			}
+		}
+		id++
+		sc := &scenario{ID: id, Cfg: c, Layouts: multi[r.Rand.Intn(len(multi))], Pattern: pat, InMaps: ds, Family: "inmap"}
+		scens = append(scens, sc)
+	}
+	isInmapCfg := func(c config) bool { return c.Mode == "bundle" && c.Compose }
 	if r.Thorough() {
 		// every configuration: transform x 4 single-file layouts, bundle/split x 2
 		// multi-file tuples + 1 single-file tuple, drawn by the seed
 		for _, c := range configs {
+			if isInmapCfg(c) {
+				addInmapScen(c)
+				addInmapScen(c)
+				continue
+			}
 			if c.Mode == "transform" {
 				p := r.Rand.Perm(len(single))
 				for k := 0; k < 4; k++ {
@@ -693,7 +852,13 @@ func Run(r *core.Run) {
 	} else {
 		// quick: a seeded quarter of the configurations, one tuple each (about 280 scenarios)
 		for _, c := range configs {
-			if r.Rand.Intn(4) != 0 {
+			if isInmapCfg(c) {
+				if r.Rand.Intn(6) == 0 {
+					addInmapScen(c)
+				}
+				continue
+			}
+			if r.Rand.Intn(5) != 0 {
 				continue
 			}
 			if c.Mode == "transform" {
@@ -702,6 +867,17 @@ func Run(r *core.Run) {
 				addScen(c, multi[r.Rand.Intn(len(multi))])
 			}
 		}
+	}
+	// css / ts families: every configuration in the thorough tier, a seeded third in the quick tier
+	sort.Slice(extras, func(i, j int) bool { return extras[i].name() < extras[j].name() })
+	r.Set("extra_configs_enumerated", len(extras))
+	for i := range extras {
+		if !r.Thorough() && r.Rand.Intn(3) != 0 {
+			continue
+		}
+		id++
+		e := extras[i]
+		scens = append(scens, &scenario{ID: id, Family: e.Kind, Extra: &e, Layouts: multi[r.Rand.Intn(len(multi))]})
 	}
 	{
 		// always replayed (the TLC run above only documents where it comes from)
@@ -717,6 +893,15 @@ func Run(r *core.Run) {
 			return
 		}
 		scens = []*scenario{sc}
+	}
+	if fam := os.Getenv("C07_FAMILY"); fam != "" && r.Replay == "" { // development aid, not used by the registered commands
+		var keep []*scenario
+		for _, sc := range scens {
+			if sc.Family == fam {
+				keep = append(keep, sc)
+			}
+		}
+		scens = keep
 	}
 	r.Set("scenarios", len(scens))
 	r.Logf("%d configurations x %d layout tuples enumerated; %d scenarios to build", len(configs), len(layouts), len(scens))
@@ -760,6 +945,10 @@ func Run(r *core.Run) {
 			Results []jobResult `json:"results"`
 		}
 		in := map[string]interface{}{"jobs": jobs[lo:hi]}
+		if d := os.Getenv("C07_DUMP"); d != "" {
+			bs, _ := json.Marshal(in)
+			os.WriteFile(filepath.Join(d, fmt.Sprintf("jobs%d.json", b)), bs, 0644)
+		}
 		if err := nodex.Run(r, "smap_check.js", in, &out, 10*time.Minute, "", "--expose-internals", "--max-old-space-size=2048"); err != nil {
 			r.Infra("smap_check.js: %v", err)
 			return
@@ -827,7 +1016,7 @@ func Run(r *core.Run) {
 	}
 	for _, sc := range scens {
 		c := sc.Cfg
-		nontrivial := len(sc.Layouts) >= 2 || c.CanShift
+		nontrivial := len(sc.Layouts) >= 2 || c.CanShift || sc.Family != ""
 		for _, l := range sc.Layouts {
 			if l == "crlf" || l == "ls" || l == "astral" {
 				nontrivial = true
@@ -844,10 +1033,25 @@ func Run(r *core.Run) {
 	r.Set("rebase_skip_reasons", skipReasons)
 	r.Logf("maps: %d mappings decoded, %d marker-true, %d names true, %d cover; rebase: %d jobs, %d mappings compared, %d files skipped",
 		totals["mappings"], totals["marker_true"], totals["name_true"], totals["cover"], rebaseJobs, rebaseCompared, rebaseSkipped)
-	if totals["marker_true"] == 0 {
+	if totals["marker_true"]+totals["css_marker_true"] == 0 {
 		r.Infra("no marker mapping was checked at all")
 	}
 	// ---- bind the Join algebra: TLC runs the spec's LinkAll on recorded chunks ------
+	// records of bundles with input maps (files contributing 2-3 sources) first: they
+	// are the ones that bind the source index bases of the model
+	{
+		var ra, rb []json.RawMessage
+		var sa, sb []*scenario
+		for i, rc := range records {
+			if recScens[i].Family == "inmap" {
+				ra, sa = append(ra, rc), append(sa, recScens[i])
+			} else {
+				rb, sb = append(rb, rc), append(sb, recScens[i])
+			}
+		}
+		r.Set("join_records_with_input_maps", len(ra))
+		records, recScens = append(ra, rb...), append(sa, sb...)
+	}
 	maxRec := r.Pick(60, 600)
 	if len(records) > maxRec {
 		records, recScens = records[:maxRec], recScens[:maxRec]
@@ -863,7 +1067,8 @@ func Run(r *core.Run) {
 	}
 	wg.Wait()
 	r.Set("model_counterexample_crlf_split_found", replayCRLF)
-	r.Set("rule", "case = one (configuration, layout tuple) pair of SourceMapGen.tla materialised as marker files and built with the real api.Build/Transform; every emitted map is decoded and every mapping checked against the marker tokens; non-trivial = at least 2 source files, or code splitting (final-path shifts), or a CRLF / U+2028 / astral layout; distinct by the full scenario name")
+	r.Set("model_counterexample_unmapped_segment_found", replayHoles)
+	r.Set("rule", "case = one (configuration, layout tuple) pair of SourceMapGen.tla materialised as marker files and built with the real api.Build/Transform; every emitted map is decoded and every mapping checked against the marker tokens; non-trivial = at least 2 source files, or code splitting (final-path shifts), or a CRLF / U+2028 / astral layout, or a scenario of the input-map / css / ts families (bundles of several files by construction); distinct by the full scenario name (for the input-map family: configuration x position pattern x input-map descriptors x layout tuple)")
 }
 
 // loadReplay finds the scenario record inside a replay file written by r.Violation
